@@ -95,6 +95,7 @@ type Node struct {
 	// output files itself (a tool that derives them from a prefix), so there is no
 	// {o:...} placeholder in the command pattern
 	OutNotInCmd bool
+	Note    string // a literal extra word on the command line (-note W: no influence on the result), e.g. one with a % sign
 	LongArg int  // > 0: the command line carries an extra word of that many bytes (-note W: no influence on the result)
 	Say     int  // > 0: the command prints that many bytes WITHOUT a newline on its standard output (a progress bar)
 	Head    int  // > 0: the command reads only the first Head bytes of each input and closes it (head -c)
@@ -244,6 +245,9 @@ func (w *WF) Describe() string {
 		}
 		if n.LongArg > 0 {
 			fmt.Fprintf(&b, " command-line-with-a-%d-byte-word", n.LongArg)
+		}
+		if n.Note != "" {
+			fmt.Fprintf(&b, " note=%q", n.Note)
 		}
 		if n.NoSpawn {
 			b.WriteString(" spawn=false")
